@@ -80,7 +80,7 @@ SEARCHES = {
                   "random create/delete/publish histories over 2 topic names x 3 subscription names, incl. racing creates and held topic handles"),
     "order":     (["order", 40], ["order", 400], "2-4 concurrent publishers x 3 messages on a 2-thread runtime, 2 subscriptions, with and without 24-48 other requests queued on the first subscription (also on a current-thread runtime); 4 posts sequences (2-14 posts) put into one subscription mailbox before its actor runs; one 2500-message request racing a small one; 4 OS threads racing to create 400 / 4000 absent topic names"),
     "names":     (["names", 3], ["names", 5], "all strings = stem + suffix over {p,t,/,s,e-acute,-} up to the given suffix length, 31 stems (among them repeated and missing segments, a repeated `projects/` prefix, leading slashes, non-ASCII segments); 5 canonical stems + suffixes of up to 2 special characters (quotes, backslash, control, combining, space, %,#,?); identity of names; text of message ids for 13 x 19 (topic number, counter) pairs"),
-    "rpc":       (["rpc"], ["rpc"], "23 scripted gRPC scenarios over a unix socket (21 on a current-thread runtime with virtual-time jumps, 2 on 4 worker threads): pull limits and waiting, batch parsing, in-stream modack, streaming limits and control messages, namespace status codes, malformed fields, list walks and content identity, two parked pulls, HTTP push payload content, a 300-topic list walk, several consumers of one subscription (stream + unary pull + second subscription + delete), concurrent publishers into an acknowledging stream, a multi-id deadline extension, 150 rounds of a unary Pull racing a Publish on a 4-thread runtime, three StreamingPull streams sharing one subscription, requests with 1500 ack ids / 1200 modifications / a 1500-message stream window, a mixed in-stream nack+extend, push delivery after delete and next to malformed endpoints, list order with 150 per page and on 4 threads, delete racing re-create of one name; one ack id twice in a streaming control message (ack + extension, extension + nack); a parked unary Pull whose subscription is deleted (10 rounds); a push endpoint answering 203 / 500 / 205 / 206 / 301 before 200"),
+    "rpc":       (["rpc"], ["rpc"], "24 scripted gRPC scenarios over a unix socket (22 on a current-thread runtime with virtual-time jumps, 2 on 4 worker threads): pull limits and waiting, batch parsing, in-stream modack, streaming limits and control messages, namespace status codes, malformed fields, list walks and content identity, two parked pulls, HTTP push payload content, a 300-topic list walk, several consumers of one subscription (stream + unary pull + second subscription + delete), concurrent publishers into an acknowledging stream, a multi-id deadline extension, 150 rounds of a unary Pull racing a Publish on a 4-thread runtime, three StreamingPull streams sharing one subscription, requests with 1500 ack ids / 1200 modifications / a 1500-message stream window, a mixed in-stream nack+extend, push delivery after delete and next to malformed endpoints, list order with 150 per page and on 4 threads, delete racing re-create of one name; one ack id twice in a streaming control message (ack + extension, extension + nack); a parked unary Pull whose subscription is deleted (10 rounds); a push endpoint answering 203 / 500 / 205 / 206 / 301 before 200; a control message with a valid ack and a malformed modification (rejected: nothing applied); unsupported push endpoints with multi-byte characters at every small offset; never-issued tokens for offsets next to usize::MAX"),
     "tokens":    (["tokens", 22], ["tokens", 27], "page-token codec (src/api/page_token.rs mounted by path): encode/decode round trip for every offset below 2^22 (thorough: 2^27), every byte value at every byte position over 3 backgrounds, 200000 random 64-bit offsets; 200000 hostile strings never panic"),
     "wakeup":    (["wakeup", 6], ["wakeup", 30], "manager level, paused clock: a parked consumer is woken although the consumer woken first abandoned its pull (6 / 30 rounds); 200 / 600 / 800 leases expiring together while 400 other requests arrive, 6 cycles each; a publish fanning out to a subscription whose mailbox is busy (6+ rounds); a push round over a backlog of 300 / 900 with an endpoint that never answers, a Pull taking the messages over after the 10 s lease, endpoint watched for 8 s; publishes of 600-1500 messages drained with pulls of 1001-5000 (first deliveries in publish order); two leases handed out 15-85 ms apart at 15 clock phases, the later one observed 1 ms before its own deadline"),
     "paging":    (["paging", 7], ["paging", 12], "page walks over 0,1,2,n resources in 2 projects, 11 page sizes x 10 start offsets (incl. usize::MAX, MAX-1, MAX-999, MAX-1000), 3 list operations"),
